@@ -224,8 +224,8 @@ func TestVerif_C24(t *testing.T) {
 			{name: "cap1/cancel+close", cap: 1, acq: []c24acq{{"bg", st, false}, {"cancel", st, false}}, closer: true},
 		}
 		P := vrun.Pick(r, 2, 3)
-		for _, c := range cfgs {
-			vexp.Run(r, vexp.Prog{Name: c.name, Budget: vsched.Budget{MaxPreempt: P, MaxDev: c.dev}, Opts: vsched.Options{Horizon: 3000, EarlyTimers: c.early}, Body: c24body(c), Seconds: r.BudgetS / float64(len(cfgs))})
+		for ci, c := range cfgs {
+			vexp.Run(r, vexp.Prog{Name: c.name, Budget: vsched.Budget{MaxPreempt: P, MaxDev: c.dev}, Opts: vsched.Options{Horizon: 3000, EarlyTimers: c.early}, Body: c24body(c), Seconds: r.Remaining() / float64(len(cfgs)-ci)})
 		}
 		r.Assume("connections are fakes implementing StopTimer/ResetTimer/Error/Close; the callers' side (mux.blocking, DoStream, dedicated release) is checked over the wire in C25/C29")
 	})
